@@ -7,8 +7,9 @@ import (
 	"time"
 )
 
-// selfBench: single-process BFS of a box to a small depth with a CPU profile (development aid).
-func selfBench(boxID string, depth int, prof string) {
+// selfBench: single-process search of a box with a CPU profile (development aid).
+// For mode A `limit` is the depth, for mode B the number of seconds.
+func selfBench(boxID string, limit int, prof string) {
 	var box *Box
 	for _, b := range boxesFor("quick") {
 		if b.ID == boxID {
@@ -27,26 +28,80 @@ func selfBench(boxID string, depth int, prof string) {
 	type st struct {
 		path []Event
 		hash uint64
+		dev  uint8
 	}
-	seen := map[uint64]bool{}
-	frontier := []st{{}}
+	seen := map[uint64]uint8{}
+	sm := newSim(true)
+	defer func() { fmt.Printf("sim: execs=%d hits=%d thaws=%d thawFeeds=%d\n", sm.Execs, sm.Hits, sm.Thaws, sm.ThawFeeds) }()
 	t0 := time.Now()
 	trans := 0
-	for d := 0; d < depth; d++ {
+	if box.Mode == "A" {
+		frontier := []st{{}}
+		for d := 0; d < limit; d++ {
+			var next []st
+			for _, s := range frontier {
+				x := &expander{box: box, sim: sm, deadline: time.Now().Add(time.Hour), abort: "/nonexistent", validateEvery: 64}
+				ts := taskState{path: s.path, hash: s.hash}
+				r := x.expand(&ts, -1, func() {})
+				trans += int(r.trans)
+				for _, sc := range x.recs {
+					if _, ok := seen[sc.hash]; !ok {
+						seen[sc.hash] = 0
+						next = append(next, st{append(append([]Event(nil), s.path...), sc.ev), sc.hash, 0})
+					}
+				}
+			}
+			frontier = next
+			fmt.Printf("depth %d: %d states, %d transitions, %.1fs, %.0f trans/s\n", d+1, len(next), trans, time.Since(t0).Seconds(), float64(trans)/time.Since(t0).Seconds())
+		}
+		return
+	}
+	layer := []st{{}}
+	for d := 0; d <= box.MaxDev; d++ {
+		queue := layer
 		var next []st
-		for _, s := range frontier {
-			var viols []workerViol
-			ts := taskState{path: s.path, hash: s.hash}
-			r := expand(box, &ts, &viols)
+		n := 0
+		for len(queue) > 0 && time.Since(t0) < time.Duration(limit)*time.Second {
+			s := queue[0]
+			queue = queue[1:]
+			if seen[s.hash] != s.dev && len(s.path) > 0 {
+				continue
+			}
+			n++
+			x := &expander{box: box, sim: sm, deadline: time.Now().Add(time.Hour), abort: "/nonexistent", validateEvery: 64}
+			ts := taskState{path: s.path, hash: s.hash, dev: s.dev}
+			r := x.expand(&ts, -1, func() {})
 			trans += int(r.trans)
-			for _, sc := range r.succs {
-				if !seen[sc.hash] {
-					seen[sc.hash] = true
-					next = append(next, st{append(append([]Event(nil), s.path...), sc.ev), sc.hash})
+			paths := make([][]Event, len(x.recs))
+			deadr := make([]bool, len(x.recs))
+			for i, rc := range x.recs {
+				base := s.path
+				if rc.parent >= 0 {
+					if deadr[rc.parent] {
+						deadr[i] = true
+						continue
+					}
+					base = paths[rc.parent]
+				}
+				nd := s.dev + rc.cost
+				if old, ok := seen[rc.hash]; ok && old <= nd {
+					deadr[i] = true
+					continue
+				}
+				seen[rc.hash] = nd
+				paths[i] = append(append([]Event(nil), base...), rc.ev)
+				if rc.expanded {
+					n++
+					continue
+				}
+				if rc.cost == 0 {
+					queue = append(queue, st{paths[i], rc.hash, nd})
+				} else if int(nd) <= box.MaxDev {
+					next = append(next, st{paths[i], rc.hash, nd})
 				}
 			}
 		}
-		frontier = next
-		fmt.Printf("depth %d: %d states, %d transitions, %.1fs, %.0f trans/s\n", d+1, len(next), trans, time.Since(t0).Seconds(), float64(trans)/time.Since(t0).Seconds())
+		fmt.Printf("dev %d: %d states in layer, %d seen, %d transitions, %.1fs, %.0f trans/s\n", d, n, len(seen), trans, time.Since(t0).Seconds(), float64(trans)/time.Since(t0).Seconds())
+		layer = next
 	}
 }
